@@ -184,6 +184,13 @@ def _scenario(name, case, scratch):
             fill(g)
             rev = comm.Split(0, size - 1 - r)
             out = []
+            gc, cc, tc = setupCylindricalGrid(layout='poloidal', npts=list(NPTS), comm=comm, dtype=np.complex128)
+            fill(gc)
+            gc.getAllData()[:] = gc.getAllData() * (1.0 + (0.5j if r % 2 else 0.0))      # purely real data on the even ranks only
+            for root in sorted(set([0, size - 1])):
+                for d in ({0: 2}, {3: range(0, 2), 2: 1}):
+                    blk = gc.getBlockFromDict(d, comm, root)
+                    out.append(('complex', root, None if blk is None else round(float(np.sum(blk[3])), 9)))
             for cm, nm in ((comm, 'world'), (rev, 'reversed')):
                 for root in sorted(set([0, size - 1])):
                     for d in ({0: 2, 2: 3}, {3: range(1, 4)}, {1: 5}):
